@@ -44,6 +44,8 @@ def run(R):
         r4(R, tus)
     if R.want("C13.R6"):
         r6(R, tus)
+    if R.want("C13.R7"):
+        r7(R)
     if R.want("C13.R5"):
         R.rule("C13.R5", "neighbour windows are computed in int: no difference (column - 1, row - 1, ...) is stored into an unsigned "
                          "variable in localmaxlabel.c or sparse_localmaxlabel / sparse_smooth (a pixel in column 0 or row 0 would see "
@@ -277,7 +279,7 @@ def r6(R, tus):
     (if / while conditions, scalar definitions substituted), plus the lower bound di >= -1 when the cursor starts at a position
     that a dominating advancing loop has moved to the first pixel of row i[k] - 1 and only moves forward (sorted input)."""
     R.rule("C13.R6", "sparse_smooth: the accumulation into s[k] executes for exactly the pixels with |di| <= 1 and |dj| <= 1 and with the "
-                     "weights 4/16 (centre, copy included), 2/16 (edge), 1/16 (corner) - finite case analysis over (di, dj) in [-3, 3]^2")
+                     "weights 4/16 (centre, copy included), 2/16 (edge), 1/16 (corner) - finite case analysis over (di, dj) in [-3, 3]^2 and the far distances +-46340, +-46341, +-65535 with C int arithmetic")
     from fractions import Fraction
     f = cfront.find_func(tus, "sparse_smooth", "src/sparse_image.c")
     cfg = f.cfg
@@ -305,9 +307,11 @@ def r6(R, tus):
     m_def = defs.get("m")
 
     def env_for(di, dj):
-        env = {"%s[%s]" % (I, kidx): 10, "%s[%s]" % (J, kidx): 10, "%s[%s]" % (I, pidx): 10 + di, "%s[%s]" % (J, pidx): 10 + dj,
-               "%s[%s]" % (V, pidx): Fraction(1)}
+        ik, jk = max(0, -di), max(0, -dj)      # coordinates are uint16: 0 .. 65535
+        env = {"%s[%s]" % (I, kidx): ik, "%s[%s]" % (J, kidx): jk, "%s[%s]" % (I, pidx): ik + di, "%s[%s]" % (J, pidx): jk + dj,
+               "%s[%s]" % (V, pidx): Fraction(1), "__int32__": True}
         return env
+    far = [-65535, -46341, -46340, 46340, 46341, 65535]    # |d| * |d| passes 2^31 at 46341
     # guards of the accumulation that mention the coordinate arrays
     guards = []
     for e, pol in cfg.guards(acc.id):
@@ -345,8 +349,8 @@ def r6(R, tus):
                 lower = False
     executed = {}
     try:
-        for di in range(-3, 4):
-            for dj in range(-3, 4):
+        for di in list(range(-3, 4)) + far:
+            for dj in list(range(-3, 4)) + far:
                 env = env_for(di, dj)
                 if lower and di < -1:
                     continue
@@ -371,11 +375,49 @@ def r6(R, tus):
     missing = sorted(c for c in window if c not in executed)
     R.check(not extra, "C13.R6", f.file, acc.line, f.name, "accumulation executes only inside the 3x3 window (guards: %s%s)" % (
         " && ".join(("%s" if pol else "!(%s)") % estr(o) for _, pol, o in guards), "; cursor starts at the first pixel of row i[k]-1" if lower else ""),
-        "a stored pixel at (row, column) distance %s from pixel k is added into s[k]: nothing on the path bounds that distance (with an empty "
-        "row between two populated rows the cursor still points into the earlier row)" % (extra[:4],))
+        "a stored pixel at (row, column) distance %s from pixel k is added into s[k]: nothing on the path bounds that distance%s" % (
+            extra[:4], " (with an empty row between two populated rows the cursor still points into the earlier row)" if any(abs(c[0]) < 10 and abs(c[1]) < 10 for c in extra)
+            else " - the distance test is evaluated in int and wraps around for coordinates 46341 or more apart (46341^2 > 2^31 - 1), so a far "
+                 "away pixel passes it and is added with a huge weight"))
     R.check(not missing, "C13.R6", f.file, acc.line, f.name, "every cell of the 3x3 window is added",
             "the neighbour at (row, column) distance %s is never added" % (missing[:4],))
     want = {(a, b): Fraction(3 - a * a - b * b, 16) for a, b in window}
     bad = [(c, executed[c]) for c in window if c in executed and executed[c] + (cw if c == (0, 0) else 0) != want[c] + (Fraction(1, 16) if c == (0, 0) else 0)]
     R.check(not bad, "C13.R6", f.file, acc.line, f.name, "weights (3 - di^2 - dj^2)/16, centre 4/16 with the copy",
             "the weight of the neighbour at distance %s is %s, expected %s" % (bad[0][0] if bad else "", bad[0][1] if bad else "", want[bad[0][0]] if bad else ""))
+
+
+# --------------------------------------------------------------------------------------------------
+def r7(R):
+    """'... for any previous content of the output and work buffers' at the Python entry points: the label / signal array that
+    sparseframe.sparse_localmax, sparse_connected_pixels and sparse_smooth hand over (frame.set_pixels(name, array, ...) or return) is
+    made in that call.  An array kept in module-level state and handed out again belongs to two frames at once: the second call
+    overwrites the labelling stored by the first.  (Work arrays that the kernel fully rewrites may be shared.)"""
+    import ast
+    from engine import pyfacts
+    from engine.pyfacts import src
+    SPF = "ImageD11/sparseframe.py"
+    R.rule("C13.R7", "sparseframe.sparse_localmax / sparse_connected_pixels / sparse_smooth: the array handed to frame.set_pixels() or returned "
+                     "does not come out of module-level state that the module keeps between calls")
+    m = pyfacts.module(R, SPF)
+    n = 0
+    for q in ("sparse_localmax", "sparse_connected_pixels", "sparse_smooth"):
+        fn = m.func(q)
+        outs = []
+        for c in ast.walk(fn):
+            if isinstance(c, ast.Call) and isinstance(c.func, ast.Attribute) and c.func.attr == "set_pixels" and len(c.args) >= 2:
+                outs.append((c.args[1], "frame.set_pixels(%s, %s, ...)" % (src(c.args[0]), src(c.args[1]))))
+            if isinstance(c, ast.Return) and c.value is not None and isinstance(c.value, ast.Name):
+                defs_ = [a.value for a in ast.walk(fn) if isinstance(a, ast.Assign) and any(isinstance(t, ast.Name) and t.id == c.value.id for t in a.targets)]
+                if defs_ and all(isinstance(d_, ast.Call) and (pyfacts.dotted(d_.func) or "").startswith("cImageD11.") for d_ in defs_):
+                    continue      # the count returned by the kernel, not an array
+                outs.append((c.value, "return %s" % src(c.value)))
+        R.shape(bool(outs), "C13.R7", SPF, q, "the array stored with set_pixels or returned")
+        for node, what in outs:
+            n += 1
+            hit = pyfacts.from_module_state(m, fn, node)
+            R.check(hit is None, "C13.R7", SPF, node.lineno, q, "%s is made in this call" % what,
+                    "%s hands out an array taken from the module-level %s (%s): two frames labelled one after the other then share ONE label array, "
+                    "and the labels stored for the first frame are silently overwritten by the second call" % (
+                        what, hit[0] if hit else "", src(hit[1])[:60] if hit else ""))
+    R.floor("C13.R7", 3)
